@@ -231,4 +231,54 @@ Section TicketHistory.
     - destruct (ticket_from_request mac cfg (jar_cookies j) now) as [[id sec]|]; apply Hj.
     - apply Hj.
   Qed.
+  (* ---- whole histories ---- *)
+  Lemma ticket_step_dom_ok now st o :
+    dom_ok name D P (fst st) -> dom_ok name D P (fst (ticket_step mac seal cfg host now st o)).
+  Proof.
+    destruct st as [j m]. cbn [fst]. intro Hd. destruct o as [v created fresh|]; cbn [ticket_step].
+    - destruct (match ticket_from_request mac cfg (jar_cookies j) now with Some t => t | None => fresh end) as [id sec] eqn:Etk.
+      unfold manager_save. rewrite Etk. cbn [snd fst].
+      exact (proj2 (jar_after_ticket_cookie j _ Hd)).
+    - unfold manager_clear.
+      set (delc := make_cookie cfg host (c_name cfg) [] (-3600000000000)).
+      assert (Ho : ours name D P delc) by (split; [apply self_session|split; reflexivity]).
+      destruct (apply_family name D P [delc] j Hd (Forall_cons _ Ho (Forall_nil _))) as (_ & _ & Hd').
+      destruct (find_cookie (c_name cfg) (jar_cookies j)) as [v0|]; [|exact Hd'].
+      destruct (ticket_from_request mac cfg (jar_cookies j) now) as [[id sec]|]; exact Hd'.
+  Qed.
+
+  (* a history: operations with the time each of them runs at *)
+  Definition ticket_run (st : jar * kv) (ops : list (Z * top)) : jar * kv :=
+    fold_left (fun st p => ticket_step mac seal cfg host (fst p) st (snd p)) ops st.
+
+  Lemma ticket_run_dom_ok ops : forall st, dom_ok name D P (fst st) -> dom_ok name D P (fst (ticket_run st ops)).
+  Proof.
+    induction ops as [|p ops IH]; intros st Hd; [exact Hd|]. cbn [ticket_run fold_left].
+    apply IH. apply ticket_step_dom_ok. exact Hd.
+  Qed.
+
+  (* After ANY history of saves and clears (any values, any times, any store contents to begin with), from a
+     jar that satisfies the family invariant: a further save makes the next request load exactly the saved
+     session, a further clear leaves nothing to load. *)
+  Theorem ticket_history j m ops now o now' :
+    dom_ok name D P j ->
+    let st := ticket_run (j, m) ops in
+    let st' := ticket_step mac seal cfg host now st o in
+    match o with
+    | TSave v created fresh =>
+      is_bytes (fst fresh) -> is_bytes (snd fresh) -> ts_ok created = true ->
+      in_window created now' (c_expire_ns cfg) = true ->
+      snd (manager_load mac str unseal (snd st') cfg (jar_cookies (fst st')) now') = Some v
+    | TClear => manager_load mac str unseal (snd st') cfg (jar_cookies (fst st')) now' = (None, None)
+    end.
+  Proof.
+    intros Hd st st'. pose proof (ticket_run_dom_ok ops (j, m) Hd) as Hd1. fold st in Hd1.
+    subst st'. destruct st as [j1 m1]. cbn [fst] in Hd1.
+    destruct o as [v created fresh|].
+    - intros Hf1 Hf2 Hts Hw.
+      pose proof (ticket_load_after_save j1 m1 v created fresh now now' Hd1 Hf1 Hf2 Hts Hw) as H.
+      destruct (ticket_step mac seal cfg host now (j1, m1) (TSave v created fresh)) as [j' m']. exact (proj2 H).
+    - pose proof (ticket_nothing_after_clear j1 m1 now now' Hd1) as H.
+      destruct (ticket_step mac seal cfg host now (j1, m1) TClear) as [j' m']. exact (proj2 H).
+  Qed.
 End TicketHistory.
